@@ -28,6 +28,19 @@ Part 2 -> one file per kind/concern (data of the types in the hand-written `Rule
   Part 2 never exits with an error and never skips: a construct that is not recognised is listed in
   an `…Unparsed` definition of the generated file, which the obligation module proves empty.
 
+Part 3 (same rules as part 2) -> one file per concern:
+
+  * `SrcAtomicity.lean`   every atomic operation on a reference counter (field `rc`) of the node and
+                          terminal-manager modules of both managers and of `arcslab`, initial values,
+                          what `DynamicTerminalManager::get_edge` does with the counter,
+  * `SrcIte.lean`         `apply_ite` of the simple BDDs and of the BCDDs: the shortcut chain before the
+                          cache lookup, cache tag/key, level, cofactors, recursion, node,
+  * `SrcEpoch.lean`       where `Manager::gc` / `reorder` of both managers advance `gc_count`, and the
+                          condition/actions of `SatCountCache::clear_if_invalid`,
+  * `SrcKeys.lean`        every apply-cache access of `simple/apply_rec.rs` (operator, edge operands,
+                          numeric operands, value), `quant`'s operator table, `BDDOp::from_apply_quant`,
+  * `SrcF64.lean`         every construction of an `F64` in `terminal/f64.rs` and the normalisation.
+
 The hand-written `Generated/Ob*.lean` prove (mostly by `decide`) that these facts satisfy what the
 models assume; the check rebuilds them after every regeneration.
 
@@ -1845,6 +1858,1144 @@ def gen_reduce(read_):
     return {"SrcReduce.lean": "\n".join(L) + "\n"}
 
 
+# =============================================================================================
+# Part 3 (second extension): atomicity of reference-count updates, `apply_ite` prologues, the
+# `gc_count` / count-cache epoch protocol, cache keys of quant / apply_quant / restrict / substitute,
+# F64 normalisation.  Same rules as part 2: never exit, never skip; `…Unparsed` lists.
+# =============================================================================================
+
+def err_text(e):
+    return str(e) if isinstance(e, Unparsed) else repr(e)
+
+
+def lstr(s):
+    """Lean string literal of a short piece of source text"""
+    t = " ".join(str(s).split()).replace("\\", "/").replace('"', "'")
+    return '"' + t + '"'
+
+
+def call_args(src, open_paren):
+    """(text between the parentheses opened at `open_paren`, index after the closing one)"""
+    depth = 0
+    for j in range(open_paren, len(src)):
+        if src[j] in "([{":
+            depth += 1
+        elif src[j] in ")]}":
+            depth -= 1
+            if depth == 0:
+                return src[open_paren + 1:j], j + 1
+    raise Unparsed("unbalanced parentheses")
+
+
+def impl_spans(src):
+    """[(start, end, owner type, trait or '')] of all `impl` blocks"""
+    out = []
+    for m in re.finditer(r"(?m)^[ \t]*(?:unsafe[ \t]+)?impl\b", src):
+        try:
+            i = src.index("{", m.end())
+        except ValueError:
+            continue
+        head = src[m.end():i]
+        if ";" in head:
+            continue
+        head = re.sub(r"\bwhere\b.*", "", head, flags=re.S)
+        # drop the generic parameter list directly after `impl`
+        h = head.strip()
+        if h.startswith("<"):
+            depth = 0
+            for k, c in enumerate(h):
+                if c == "<":
+                    depth += 1
+                elif c == ">" and (k == 0 or h[k - 1] != "-"):
+                    depth -= 1
+                    if depth == 0:
+                        h = h[k + 1:]
+                        break
+        parts = re.split(r"\bfor\b", h)
+        ty = parts[-1].strip()
+        tr = parts[0].strip() if len(parts) > 1 else ""
+        name = lambda t: (re.match(r"(?:[\w:]*::)?(\w+)", t.strip()) or [None, "?"])[1]
+        try:
+            _, end = block_after(src, i)
+        except SystemExit:
+            continue
+        out.append((m.start(), end, name(ty), name(tr) if tr else ""))
+    return out
+
+
+def fn_spans(src):
+    """[(start of `fn`, end of body, name, body)] of all functions with a body"""
+    out = []
+    for m in re.finditer(r"\bfn\s+([A-Za-z0-9_]+)", src):
+        depth, j = 0, m.end()
+        while j < len(src) and not (src[j] == "{" and depth == 0) and not (src[j] == ";" and depth == 0):
+            if src[j] in "([":
+                depth += 1
+            elif src[j] in ")]":
+                depth -= 1
+            j += 1
+        if j < len(src) and src[j] == "{":
+            try:
+                body, end = block_after(src, j)
+            except SystemExit:
+                continue
+            out.append((m.start(), end, m.group(1), body))
+    return out
+
+
+_FN_SPANS = {}
+
+
+def fn_spans_cached(src):
+    k = (len(src), hash(src))
+    if k not in _FN_SPANS:
+        _FN_SPANS[k] = fn_spans(src)
+    return _FN_SPANS[k]
+
+
+def fn_at(spans, pos):
+    """innermost function whose body contains `pos`: (name, body) or ('?', '')"""
+    best = None
+    for st, en, name, body in spans:
+        if st <= pos < en and (best is None or st > best[0]):
+            best = (st, en, name, body)
+    return (best[2], best[3]) if best else ("?", "")
+
+
+def owner_of(spans, pos):
+    best = None
+    for st, en, ty, tr in spans:
+        if st <= pos < en and (best is None or st > best[0]):
+            best = (st, en, ty, tr)
+    return best[2] if best else ""
+
+
+def strip_debug_asserts(src):
+    return re.sub(r"debug_assert(?:_eq|_ne)?!\s*\((?:[^()]|\((?:[^()]|\([^()]*\))*\))*\)\s*;", "", src)
+
+
+AT_DIRS = [("index", "crates/oxidd-manager-index/src", ["node", "terminal_manager"]),
+           ("pointer", "crates/oxidd-manager-pointer/src", ["node", "terminal_manager"])]
+AT_METHODS = {"fetch_add": ".fetchAdd", "fetch_sub": ".fetchSub", "load": ".load", "store": ".store", "swap": ".swap",
+              "compare_exchange": ".cas", "compare_exchange_weak": ".cas", "fetch_update": ".fetchUpdate"}
+AT_ORD = r"(?:(?:std::sync::)?(?:atomic::)?Ordering::)?(Relaxed|Release|Acquire|AcqRel|SeqCst)"
+
+
+def at_ordering(txt):
+    m = re.fullmatch(AT_ORD, compact(txt))
+    return m.group(1) if m else "param:" + compact(txt)
+
+
+def at_scan(tag, src, ops, fields, inits, unparsed):
+    """all uses of a field / binding called `rc` in one file"""
+    src = strip_debug_asserts(strip_comments(src))
+    spans = impl_spans(src)
+    fspans = fn_spans(src)
+    for m in re.finditer(r"\brc\b", src):
+        pos, end = m.start(), m.end()
+        before = src[:pos].rstrip()
+        after = src[end:]
+        fn, fbody = fn_at(fspans, pos)
+        where = f"{tag} fn {fn}"
+        is_field = before.endswith(".")
+        mm = re.match(r"\s*\.\s*(\w+)\s*\(", after)
+        if mm and (is_field or mm.group(1) in AT_METHODS or mm.group(1).startswith("fetch_")):
+            meth = mm.group(1)
+            try:
+                args, aend = call_args(src, end + mm.end() - 1)
+            except Unparsed as e:
+                unparsed.append(desc(where, str(e)))
+                continue
+            parts = [a for a in split_top(args, ",") if a.strip()]
+            op = AT_METHODS.get(meth, f'(.other "{meth}")')
+            operand, ordering = "", ""
+            if meth in ("fetch_add", "fetch_sub", "store", "swap") or (meth.startswith("fetch_") and meth != "fetch_update"):
+                if len(parts) != 2:
+                    unparsed.append(desc(where, "arguments of " + meth + ": " + args))
+                    continue
+                operand, ordering = compact(parts[0]), at_ordering(parts[1])
+            elif meth == "load":
+                if len(parts) != 1:
+                    unparsed.append(desc(where, "arguments of load: " + args))
+                    continue
+                ordering = at_ordering(parts[0])
+            elif meth in ("compare_exchange", "compare_exchange_weak"):
+                if len(parts) != 4:
+                    unparsed.append(desc(where, "arguments of " + meth + ": " + args))
+                    continue
+                operand = compact(parts[0]) + "->" + compact(parts[1])
+                ordering = at_ordering(parts[2]) + "/" + at_ordering(parts[3])
+            elif meth == "fetch_update":
+                if len(parts) != 3:
+                    unparsed.append(desc(where, "arguments of fetch_update: " + args))
+                    continue
+                operand, ordering = compact(parts[2]), at_ordering(parts[0]) + "/" + at_ordering(parts[1])
+            else:
+                operand = compact(args)
+            aborts = bool(re.search(r"\babort\s*\(\s*\)", fbody))
+            ops.append(f'⟨"{tag}", "{owner_of(spans, pos)}", "{fn}", {op}, {lstr(operand)}, "{ordering}", {lean_bool(aborts)}⟩')
+            continue
+        if is_field:
+            unparsed.append(desc(where, "field `rc` used other than by a method call: " + src[max(0, pos - 40):end + 30]))
+            continue
+        mi = re.match(r"\s*:\s*([\w:]*Atomic\w+)\s*(::\s*new\s*\()?", after)
+        if mi:
+            ty = mi.group(1).split("::")[-1]
+            if mi.group(2):
+                try:
+                    args, _ = call_args(src, end + mi.end() - 1)
+                    inits.append(f'("{tag}", "{owner_of(spans, pos)}", "{fn}", {lstr(compact(args))})')
+                except Unparsed as e:
+                    unparsed.append(desc(where, str(e)))
+            else:
+                fields.append(f'("{tag}", "{ty}")')
+            continue
+        if re.match(r"\s*:", after) and not re.match(r"\s*::", after):
+            unparsed.append(desc(where, "`rc:` not followed by an atomic type: " + src[pos:end + 40]))
+            continue
+        # a local value called `rc` (e.g. `let rc = node.load_rc(Acquire)`): not a counter
+
+
+def at_get_edge(src, unparsed):
+    """`DynamicTerminalManager::get_edge`: what the hit arm and the insert arm do with the counter"""
+    src = strip_comments(src)
+    rows = []
+    bodies = [b for b in fn_bodies(src, "get_edge") if "find_or_find_insert_slot" in b]
+    if len(bodies) != 1:
+        unparsed.append(desc("dynamic.rs", "fn get_edge with find_or_find_insert_slot not found"))
+        return rows
+    body = bodies[0]
+    m = re.search(r"let\s+id\s*=\s*match\s+state\s*\.\s*unique_table\s*\.\s*find_or_find_insert_slot\s*\(", body)
+    if not m:
+        unparsed.append(desc("get_edge", "`let id = match state.unique_table.find_or_find_insert_slot(..)` not found"))
+        return rows
+    _, aend = call_args(body, m.end() - 1)
+    arms_body, _ = block_after(body, aend)
+    for pat, res in split_arms(arms_body):
+        k = re.sub(r"\(.*", "", compact(pat))
+        if k not in ("Ok", "Err"):
+            unparsed.append(desc("get_edge arm", pat))
+            continue
+        acts = []
+        for mm in re.finditer(r"(?:self\s*\.\s*)?\bretain\s*\(|rc\s*:\s*Atomic\w+::new\(\s*(\w+)\s*\)|\brelease\s*\(", res):
+            t = mm.group(0)
+            if "Atomic" in t:
+                acts.append("init " + mm.group(1))
+            elif "retain" in t:
+                acts.append("retain")
+            else:
+                acts.append("release")
+        rows.append(f'("{k}", {lean_strs(acts)})')
+    return rows
+
+
+def gen_atomicity(read_):
+    ops, fields, inits, unparsed, ge = [], [], [], [], []
+    try:
+        files = []
+        for short, root, subs in AT_DIRS:
+            for sub in subs:
+                d = os.path.join(REPO, root, sub)
+                for name in sorted(os.listdir(d)) if os.path.isdir(d) else []:
+                    if name.endswith(".rs"):
+                        files.append((f"{short}:{sub}/{name[:-3]}", f"{root}/{sub}/{name}"))
+                if not os.path.isdir(d):
+                    unparsed.append(desc(short, "directory " + sub + " not found"))
+        files.append(("arcslab:lib", "crates/arcslab/src/lib.rs"))
+        for tag, path in files:
+            try:
+                at_scan(tag, read_(path), ops, fields, inits, unparsed)
+            except (Exception, SystemExit) as e:
+                unparsed.append(desc(tag, err_text(e)))
+        try:
+            ge = at_get_edge(read_("crates/oxidd-manager-index/src/terminal_manager/dynamic.rs"), unparsed)
+        except (Exception, SystemExit) as e:
+            unparsed.append(desc("get_edge", err_text(e)))
+    except (Exception, SystemExit) as e:  # `die()` of part 1's helpers must not end the run here
+        unparsed.append(desc("extractor exception", repr(e)))
+    L = ["import OxiddModel.Generated.RulesAtomicity", GEN_HEADER, "namespace OxiddModel.Generated\n"]
+    L.append("/-- every atomic operation on a reference counter (a field `rc`) in the node / terminal-manager modules of both managers and in `arcslab`: file, `impl` owner, function, operation, operand, ordering, does the function `abort()` -/")
+    L.append("def rcOps : List At.RcOp :=\n  [" + ",\n   ".join(ops) + "]")
+    L.append("/-- the declarations `rc: Atomic…` (file, type) -/")
+    L.append("def rcFields : List (String × String) := " + lean_list(fields))
+    L.append("/-- the initialisations `rc: Atomic…::new(k)` (file, owner, function, k) -/")
+    L.append("def rcInits : List (String × String × String × String) := " + lean_list(inits))
+    L.append("/-- `DynamicTerminalManager::get_edge`: arm of the table lookup ↦ what it does with the counter -/")
+    L.append("def getEdgeArms : List (String × List String) := " + lean_list(ge))
+    L.append("/-- uses of a reference counter that the extractor does not recognise -/")
+    L.append(f"def atomicityUnparsed : List String := {lean_strs(unparsed)}")
+    L.append("\nend OxiddModel.Generated")
+    return {"SrcAtomicity.lean": "\n".join(L) + "\n"}
+
+
+# ---- `apply_ite` prologues (simple BDD, BCDD) ------------------------------------------------------
+
+IT_OPS = {"And": "and", "Or": "or", "Nand": "nand", "Nor": "nor", "Xor": "xor", "Equiv": "equiv", "Imp": "imp", "ImpStrict": "impStrict"}
+IT_V = ("f", "g", "h")
+
+
+def protect_turbofish(s):
+    """replace the commas inside `::<..>` by \x00 so that `split_arms` / `split_top` do not split there"""
+    out, i = [], 0
+    while i < len(s):
+        if s.startswith("::<", i):
+            depth, j = 0, i + 2
+            while j < len(s):
+                if s[j] == "<":
+                    depth += 1
+                elif s[j] == ">" and s[j - 1] != "-" and s[j - 1] != "=":
+                    depth -= 1
+                    if depth == 0:
+                        break
+                j += 1
+            out.append(s[i:j + 1].replace(",", "\x00"))
+            i = j + 1
+        else:
+            out.append(s[i])
+            i += 1
+    return "".join(out)
+
+
+def it_split_arms(body):
+    return [(p.replace("\x00", ","), r.replace("\x00", ",")) for p, r in split_arms(protect_turbofish(body))]
+
+
+def it_operand(txt):
+    """`f`, `f.borrowed()`, `&f`, `not(&f)` -> Lean IExpr"""
+    c = compact(txt)
+    m = re.fullmatch(r"not\(&?(f|g|h)\)", c)
+    if m:
+        return f"(.neg (.opnd .{m.group(1)}))"
+    m = re.fullmatch(r"&?\*?(f|g|h)(?:\.borrowed\(\))?", c)
+    if m:
+        return f"(.opnd .{m.group(1)})"
+    raise Unparsed("operand " + txt)
+
+
+def it_test(cond, env):
+    """a test inside a shortcut -> (atoms if true, atoms if false); atoms are tuples"""
+    c = compact(strip_outer(cond))
+    m = re.fullmatch(r"(.+?)(==|!=)(.+)", c)
+    if not m:
+        raise Unparsed("test " + cond)
+    a, rel, b = m.group(1), m.group(2), m.group(3)
+    pos = rel == "=="
+    mt = re.fullmatch(r"(f|g|h)\.tag\(\)", a), re.fullmatch(r"(f|g|h)\.tag\(\)", b)
+    if mt[0] and mt[1]:
+        if env.get("same") != frozenset((mt[0].group(1), mt[1].group(1))):
+            raise Unparsed("tags compared outside a same-node test: " + cond)
+        return ([("tags", pos)], [("tags", not pos)])
+    if mt[1] and not mt[0]:
+        a, b, mt = b, a, (mt[1], None)
+    if mt[0]:
+        x, tg = mt[0].group(1), bc_tagname(b)
+        if tg is None or x not in env.get("terms", ()):
+            raise Unparsed("tag test on an operand not known to be the terminal: " + cond)
+        v = (tg == "None") == pos
+        return ([("term", x, v)], [("term", x, not v)])
+    # `*t.borrow() == True`
+    for l, r in ((a, b), (b, a)):
+        mb = re.fullmatch(r"\*?(\w+)\.borrow\(\)", l)
+        mv = re.fullmatch(r"(?:BDDTerminal::)?(True|False)", r)
+        if mb and mv and mb.group(1) in env.get("binders", {}):
+            x = env["binders"][mb.group(1)]
+            v = (mv.group(1) == "True") == pos
+            return ([("term", x, v)], [("term", x, not v)])
+    raise Unparsed("test " + cond)
+
+
+def it_cases(txt, env, leaf=None):
+    """value of a returned expression -> [(atoms, Lean IExpr)]"""
+    t = txt.strip()
+    t = strip_outer(t, "{", "}").strip().rstrip(";").strip()
+    t = re.sub(r"^return\b", "", t).strip()
+    if t.endswith("?"):
+        return it_cases(t[:-1], env, leaf)
+    m = re.match(r"Ok\s*\(", t)
+    if m:
+        inner, end = call_args(t, m.end() - 1)
+        if not t[end:].strip():
+            return it_cases(inner, env, leaf)
+    m = re.match(r"if\b", t)
+    if m:
+        i = t.index("{")
+        th, end = block_after(t, i)
+        rest = t[end:].strip()
+        if not rest.startswith("else"):
+            raise Unparsed("if without else: " + t)
+        ta, fa = it_test(t[m.end():i], env)
+        out = [(ta + a, e) for a, e in it_cases(th, env, leaf)] + [(fa + a, e) for a, e in it_cases(rest[4:], env, leaf)]
+        return out
+    m = re.match(r"match\s+\*?(\w+)\.borrow\(\)\s*(?=\{)", t)
+    if m:
+        arms, end = block_after(t, m.end())
+        if t[end:].strip() or m.group(1) not in env.get("binders", {}):
+            raise Unparsed("match " + t)
+        x = env["binders"][m.group(1)]
+        out, seen = [], set()
+        for pat, res in it_split_arms(arms):
+            k = re.sub(r"^BDDTerminal::", "", compact(pat))
+            if k not in ("True", "False") or k in seen:
+                raise Unparsed("terminal arm " + pat)
+            seen.add(k)
+            out += [([("term", x, k == "True")] + a, e) for a, e in it_cases(res, env, leaf)]
+        if seen != {"True", "False"}:
+            raise Unparsed("terminal match is not total: " + t)
+        return out
+    c = compact(t)
+    m = re.match(r"manager\.clone_edge\(", c)
+    if m:
+        inner, end = call_args(t, t.index("("))
+        if t[end:].strip():
+            raise Unparsed("expression " + t)
+        inner = re.sub(r"^\s*&\s*\*?", "", inner.strip())
+        if re.match(r"if\b", inner):
+            return it_cases(inner, env, leaf=True)
+        return [([], it_operand(inner))]
+    m = re.match(r"not_owned\s*\(", t)
+    if m:
+        inner, end = call_args(t, m.end() - 1)
+        if t[end:].strip():
+            raise Unparsed("expression " + t)
+        return [(a, f"(.neg {e})") for a, e in it_cases(inner, env, leaf)]
+    m = re.match(r"apply_not\s*\(", t)
+    if m:
+        inner, end = call_args(t, m.end() - 1)
+        args = [a for a in split_top(inner, ",") if a.strip()]
+        if t[end:].strip() or len(args) != 3 or compact(args[0]) != "manager" or compact(args[1]) != "rec":
+            raise Unparsed("apply_not call " + t)
+        return [([], f"(.neg {it_operand(args[2])})")]
+    m = re.match(r"apply_bin\s*::\s*<[^>]*?(\w+Op)::(\w+)\s+as\s+u8\s*\}?\s*,?\s*>\s*\(", t) or re.match(r"apply_(and)()\s*\(", t)
+    if m:
+        op = "and" if m.group(1) == "and" else IT_OPS.get(m.group(2))
+        inner, end = call_args(t, m.end() - 1)
+        args = [a for a in split_top(inner, ",") if a.strip()]
+        if op is None or t[end:].strip() or len(args) != 4 or compact(args[0]) != "manager" or compact(args[1]) != "rec":
+            raise Unparsed("apply call " + t)
+        return [([], f"(.bin .{op} {it_operand(args[2])} {it_operand(args[3])})")]
+    if leaf and c in IT_V:
+        return [([], f"(.opnd .{c})")]
+    raise Unparsed("expression " + t)
+
+
+def it_returns(txt):
+    """does every path through this block end in a `return`?"""
+    t = strip_outer(txt.strip(), "{", "}").strip().rstrip(";").strip()
+    if re.match(r"return\b", t):
+        return True
+    m = re.match(r"if\b", t)
+    if m and "{" in t:
+        th, end = block_after(t, t.index("{"))
+        rest = t[end:].strip()
+        return rest.startswith("else") and it_returns(th) and it_returns(rest[4:])
+    m = re.match(r"match\b[^{]*(?=\{)", t)
+    if m:
+        arms, end = block_after(t, m.end())
+        return not t[end:].strip() and all(it_returns(r) for _, r in it_split_arms(arms))
+    return False
+
+
+def it_atoms_lean(atoms, same=None, terms=(), inners=()):
+    """canonical Lean list of the atoms of one row"""
+    out = []
+    tags = [a[1] for a in atoms if a[0] == "tags"]
+    if same:
+        x, y = [v for v in IT_V if v in same]
+        if same_is_node(same):
+            if len(tags) != 1:
+                raise Unparsed("same-node shortcut without exactly one tag comparison")
+            out.append((IT_V.index(x), f".sameNode .{x} .{y} {lean_bool(tags[0])}"))
+        else:
+            if tags:
+                raise Unparsed("tag comparison on plain edges")
+            out.append((IT_V.index(x), f".same .{x} .{y}"))
+    elif tags:
+        raise Unparsed("tag comparison outside a same-node test")
+    pinned = {}
+    for a in atoms:
+        if a[0] == "term":
+            if a[1] in pinned and pinned[a[1]] != a[2]:
+                raise Unparsed("contradictory tests on " + a[1])
+            pinned[a[1]] = a[2]
+    for x in IT_V:
+        if x in pinned:
+            out.append((IT_V.index(x), f".term .{x} {lean_bool(pinned[x])}"))
+        elif x in terms:
+            out.append((IT_V.index(x), f".termAny .{x}"))
+        elif x in inners:
+            out.append((IT_V.index(x), f".inner .{x}"))
+    return lean_list([s for _, s in sorted(out, key=lambda p: p[0])])
+
+
+_IT_NODE_SAME = set()
+
+
+def same_is_node(same):
+    return same in _IT_NODE_SAME
+
+
+def it_sort_key(atoms):
+    """sub-cases of one source construct are emitted `true` before `false` whatever the source order"""
+    return tuple((0 if a[-1] else 1) for a in atoms if a[0] in ("term", "tags"))
+
+
+def it_prologue(src, enum, kind):
+    """`apply_ite` -> (rows, facts dict).  rows: Lean `It.Row` terms in source order"""
+    bodies = [b for b in fn_bodies(src, "apply_ite")]
+    if len(bodies) != 1:
+        raise Unparsed("fn apply_ite not found")
+    stmts = bc_stmts(bodies[0])
+    rows, untag = [], {}
+    seen_f_match = seen_gh_match = False
+    k = 0
+    _IT_NODE_SAME.clear()
+    while k < len(stmts):
+        st = stmts[k]
+        c = compact(st)
+        if re.match(r"use\b", st) or re.match(r"stat!", st) or re.match(r"if\s+rec\.should_switch_to_sequential\(\)", st):
+            k += 1
+            continue
+        m = re.fullmatch(r"let(\w+)=(f|g|h)\.with_tag\((?:EdgeTag::)?None\)", c)
+        if m:
+            untag[m.group(1)] = m.group(2)
+            k += 1
+            continue
+        m = re.match(r"if\s+\*?(\w+)\s*==\s*\*?(\w+)\s*(?=\{)", st)
+        if m:
+            a, b = m.group(1), m.group(2)
+            blk, end = block_after(st, m.end())
+            if st[end:].strip():
+                raise Unparsed("shortcut with else: " + st)
+            if not it_returns(blk):
+                raise Unparsed("shortcut does not return: " + blk)
+            if a in IT_V and b in IT_V:
+                same = frozenset((a, b))
+            elif a in untag and b in untag:
+                same = frozenset((untag[a], untag[b]))
+                _IT_NODE_SAME.add(same)
+            else:
+                raise Unparsed("shortcut test " + st)
+            if len(same) != 2:
+                raise Unparsed("shortcut test " + st)
+            cases = it_cases(blk, {"same": same})
+            for atoms, e in sorted(cases, key=lambda p: it_sort_key(p[0])):
+                rows.append(f"⟨{it_atoms_lean(atoms, same=same)}, {e}⟩")
+            k += 1
+            continue
+        m = re.match(r"let\s+fnode\s*=\s*match\s+manager\.get_node\(&f\)\s*(?=\{)", st)
+        if m:
+            arms, end = block_after(st, m.end())
+            if st[end:].strip():
+                raise Unparsed("after the match on f: " + st[end:])
+            kinds = set()
+            for pat, res in it_split_arms(arms):
+                p = re.sub(r"Node::", "", compact(pat))
+                mi = re.fullmatch(r"Inner\((\w+)\)", p)
+                mt = re.fullmatch(r"Terminal\((\w+)\)", p)
+                if mi:
+                    if compact(res) != mi.group(1):
+                        raise Unparsed("inner arm of the match on f: " + res)
+                    kinds.add("inner")
+                elif mt:
+                    env = {"terms": ("f",), "binders": {} if mt.group(1) == "_" else {mt.group(1): "f"}}
+                    if not it_returns(res):
+                        raise Unparsed("terminal arm of the match on f does not return: " + res)
+                    for atoms, e in sorted(it_cases(res, env), key=lambda p: it_sort_key(p[0])):
+                        rows.append(f"⟨{it_atoms_lean(atoms, terms=('f',))}, {e}⟩")
+                    kinds.add("term")
+                else:
+                    raise Unparsed("pattern of the match on f: " + pat)
+            if kinds != {"inner", "term"}:
+                raise Unparsed("match on f needs an Inner and a Terminal arm")
+            seen_f_match = True
+            k += 1
+            continue
+        m = re.match(r"let\s*\(\s*gnode\s*,\s*hnode\s*\)\s*=\s*match\s*\(\s*manager\.get_node\(&g\)\s*,\s*manager\.get_node\(&h\)\s*\)\s*(?=\{)", st)
+        if m:
+            if not seen_f_match:
+                raise Unparsed("match on (g, h) before the match on f")
+            arms, end = block_after(st, m.end())
+            if st[end:].strip():
+                raise Unparsed("after the match on (g, h): " + st[end:])
+            for pat, res in it_split_arms(arms):
+                p = re.sub(r"Node::", "", compact(pat))
+                mp = re.fullmatch(r"\((\w+(?:\(\w+\))?),(\w+(?:\(\w+\))?)\)", p)
+                if not mp:
+                    raise Unparsed("pattern of the match on (g, h): " + pat)
+                terms, inners, binders, names = [], [], {}, []
+                for x, q in (("g", mp.group(1)), ("h", mp.group(2))):
+                    mi, mt = re.fullmatch(r"Inner\((\w+)\)", q), re.fullmatch(r"Terminal\((\w+)\)", q)
+                    if mi:
+                        inners.append(x)
+                        names.append(mi.group(1))
+                    elif mt:
+                        terms.append(x)
+                        if mt.group(1) != "_":
+                            binders[mt.group(1)] = x
+                    elif re.fullmatch(r"_\w*", q):
+                        pass  # no constraint (the earlier arms decide)
+                    else:
+                        raise Unparsed("pattern of the match on (g, h): " + pat)
+                if len(inners) == 2:
+                    if compact(res) != f"({names[0]},{names[1]})":
+                        raise Unparsed("Inner/Inner arm: " + res)
+                    seen_gh_match = True
+                    continue
+                if not it_returns(res):
+                    raise Unparsed("arm of the match on (g, h) does not return: " + res)
+                env = {"terms": tuple(terms), "binders": binders}
+                for atoms, e in sorted(it_cases(res, env), key=lambda p: it_sort_key(p[0])):
+                    rows.append(f"⟨{it_atoms_lean(atoms, terms=terms, inners=inners)}, {e}⟩")
+            if not seen_gh_match:
+                raise Unparsed("match on (g, h) has no Inner/Inner arm")
+            k += 1
+            continue
+        break
+    if not seen_gh_match:
+        raise Unparsed("prologue ends before the match on (g, h): " + (stmts[k] if k < len(stmts) else "end"))
+    rest = stmts[k:]
+    text = " ; ".join(rest)
+    facts = {}
+    key = r"&\[\s*(\w+)(?:\.borrowed\(\))?\s*,\s*(\w+)(?:\.borrowed\(\))?\s*,\s*(\w+)(?:\.borrowed\(\))?\s*,?\s*\]"
+    mg = re.search(r"\.apply_cache\(\)\s*\.get\(\s*manager\s*,\s*(?:" + enum + r"::)?(\w+)\s*,\s*" + key + r"\s*,?\s*\)", text)
+    ma = re.search(r"\.apply_cache\(\)\s*\.add\(\s*manager\s*,\s*(?:" + enum + r"::)?(\w+)\s*,\s*" + key + r"\s*,\s*(\w+)\.borrowed\(\)\s*,?\s*\)", text)
+    if not mg or not ma:
+        raise Unparsed("apply cache get/add of apply_ite")
+    facts["getTag"], facts["getKey"] = mg.group(1), [mg.group(2), mg.group(3), mg.group(4)]
+    facts["addTag"], facts["addKey"] = ma.group(1), [ma.group(2), ma.group(3), ma.group(4)]
+    ctext = compact(text)
+    # level = min(min(flevel, glevel), hlevel)   (any nesting of the three)
+    lv = {}
+    for x in IT_V:
+        if not re.search(r"let" + x + r"level=" + x + r"node\.level\(\)", ctext):
+            raise Unparsed(x + "level binding")
+    m = re.search(r"letlevel=([^;]*);", ctext)
+    if not m:
+        raise Unparsed("level binding")
+    ml = m.group(1).replace("std::cmp::", "").replace("cmp::", "")
+    names = re.findall(r"(f|g|h)level", ml)
+    if sorted(names) != ["f", "g", "h"] or re.sub(r"[fgh]level", "x", ml) not in ("min(min(x,x),x)", "min(x,min(x,x))", "x.min(x).min(x)"):
+        raise Unparsed("level expression " + m.group(1))
+    facts["level"] = "min3"
+    cof = []
+    for x in IT_V:
+        m = re.search(r"let\(" + x + "t," + x + r"e\)=if" + x + r"level==level\{(collect_children\(" + x + r"node\)|collect_cofactors\(" + x + r"\.tag\(\)," + x + r"node\))\}else\{\(" + x + r"\.borrowed\(\)," + x + r"\.borrowed\(\)\)\}", ctext)
+        if not m:
+            raise Unparsed("cofactors of " + x)
+        cof.append(x)
+    facts["cofactors"] = cof
+    m = re.search(r"let\((\w+),(\w+)\)=rec\.ternary\(apply_ite,manager,\((\w+),(\w+),(\w+)\),\((\w+),(\w+),(\w+)\),?\)\?", ctext)
+    if not m:
+        raise Unparsed("rec.ternary call")
+    facts["ternary"] = [m.group(i) for i in range(3, 9)]
+    mr = re.search(r"let(\w+)=reduce\(manager,level,(\w+)\.into_edge\(\),(\w+)\.into_edge\(\)," + r"(?:" + enum + r"::)?(\w+)\)\?", ctext)
+    if not mr or (mr.group(2), mr.group(3)) != (m.group(1), m.group(2)):
+        raise Unparsed("reduce call")
+    facts["reduce"] = ["then", "else"]
+    facts["addValue"] = "result" if ma.group(5) == mr.group(1) else ma.group(5)
+    return rows, facts
+
+
+def gen_ite(read_):
+    out = {}
+    unparsed = []
+    for kind, path, enum in (("bdd", "crates/oxidd-rules-bdd/src/simple/apply_rec.rs", "BDDOp"),
+                             ("bcdd", "crates/oxidd-rules-bdd/src/complement_edge/apply_rec.rs", "BCDDOp")):
+        try:
+            rows, facts = it_prologue(strip_debug_asserts(strip_comments(read_(path))), enum, kind)
+        except (Exception, SystemExit) as e:
+            rows, facts = [], {}
+            unparsed.append(desc(f"apply_ite ({kind})", err_text(e)))
+        out[kind] = (rows, facts)
+    L = ["import OxiddModel.Generated.RulesIte", GEN_HEADER, "namespace OxiddModel.Generated\n"]
+    for kind, file in (("bdd", "simple/apply_rec.rs"), ("bcdd", "complement_edge/apply_rec.rs")):
+        rows, facts = out[kind]
+        L.append(f"/-- `apply_ite` (`oxidd-rules-bdd/src/{file}`): the shortcuts tested before the cache lookup, in source order (sub-cases of one test: `true` first) -/")
+        L.append(f"def iteRows_{kind} : List It.Row :=\n  [" + ",\n   ".join(rows) + "]")
+        fl = []
+        for name in ("getTag", "getKey", "addTag", "addKey", "addValue", "level", "cofactors", "ternary", "reduce"):
+            if name in facts:
+                v = facts[name]
+                fl.append(f'("{name}", {lean_strs(v if isinstance(v, list) else [v])})')
+        L.append(f"/-- … and what follows: cache tag and key of the lookup and of the insertion, the level, the cofactors, the recursive calls, the node -/")
+        L.append(f"def iteTail_{kind} : List (String × List String) :=\n  [" + ",\n   ".join(fl) + "]")
+    L.append("/-- constructs of the `apply_ite` functions that the extractor does not recognise -/")
+    L.append(f"def iteUnparsed : List String := {lean_strs(unparsed)}")
+    L.append("\nend OxiddModel.Generated")
+    return {"SrcIte.lean": "\n".join(L) + "\n"}
+
+
+# ---- `gc_count` / count-cache epoch protocol -------------------------------------------------------
+
+def depth_at(body, pos):
+    d = 0
+    for c in body[:pos]:
+        if c == "{":
+            d += 1
+        elif c == "}":
+            d -= 1
+    return d
+
+
+EP_INC = r"(?:self\s*\.\s*gc_count\s*\.\s*fetch_add\(\s*(\d+)\s*,\s*" + AT_ORD + r"\s*\)|\*\s*self\s*\.\s*gc_count\s*\.\s*get_mut\(\)\s*\+=\s*(\d+))"
+
+
+def ep_incs(body, lo, hi, where, unparsed):
+    """increments of `gc_count` in `body`, positioned relative to the span [lo, hi)"""
+    out = []
+    for m in re.finditer(r"\bgc_count\b", body):
+        mm = re.search(EP_INC, body[max(0, m.start() - 12):m.end() + 120])
+        if not mm:
+            unparsed.append(desc(where, "use of gc_count that is not an increment by a literal: " + body[max(0, m.start() - 20):m.end() + 30]))
+            continue
+        if depth_at(body, m.start()) != 0:
+            unparsed.append(desc(where, "conditional increment of gc_count"))
+            continue
+        posn = ".before" if m.start() < lo else (".after" if m.start() >= hi else ".inside")
+        out.append(f"⟨{posn}, {mm.group(1) or mm.group(3)}⟩")
+    return out
+
+
+def ep_manager(src, tag, unparsed):
+    """-> Lean term of type Ep.MgrFacts"""
+    src = re.sub(r"#!?\[[^\]]*\]", "", strip_comments(src))
+    gcs = [(sig, b) for sig, b in fn_defs(src, "gc") if "gc_ongoing" in b]
+    res = {"gc": [], "gcShared": False, "tryLockFirst": False, "reorder": [], "reorderExclusive": False, "getter": ""}
+    if len(gcs) != 1:
+        unparsed.append(desc(tag, f"Manager::gc not found ({len(gcs)} candidates)"))
+    else:
+        sig, body = gcs[0]
+        res["gcShared"] = bool(re.search(r"\(\s*&self\s*\)", sig))
+        ml = re.search(r"for\s+\w+\s+in\s+&?self\s*\.\s*unique_table\s*(?=\{)", body)
+        if not ml or depth_at(body, ml.start()) != 0 or not re.search(r"\.\s*gc\s*\(", block_after(body, ml.end())[0]):
+            unparsed.append(desc(tag + " gc", "sweep loop `for level in &self.unique_table { .. level.gc(..) .. }` not found"))
+        else:
+            _, lend = block_after(body, ml.end())
+            res["gc"] = ep_incs(body, ml.start(), lend, tag + " gc", unparsed)
+            mt = re.search(r"if\s*!\s*self\s*\.\s*gc_ongoing\s*\.\s*try_lock\(\)\s*(?=\{)", body)
+            if mt:
+                blk, tend = block_after(body, mt.end())
+                first_inc = re.search(r"\bgc_count\b", body)
+                res["tryLockFirst"] = bool(re.search(r"\breturn\b", blk)) and (first_inc is None or first_inc.start() > tend)
+    ros = fn_defs(src, "reorder")
+    ros = [(sig, b) for sig, b in ros if "reorder_gc_prepared" in b]
+    if len(ros) != 1:
+        unparsed.append(desc(tag, f"Manager::reorder not found ({len(ros)} candidates)"))
+    else:
+        sig, body = ros[0]
+        res["reorderExclusive"] = bool(re.search(r"\(\s*&mut\s+self\b", sig))
+        calls = [m for m in re.finditer(r"\bf\s*\(\s*self\s*\)", body) if depth_at(body, m.start()) == 0]
+        if len(calls) != 1:
+            unparsed.append(desc(tag + " reorder", f"{len(calls)} top-level calls `f(self)`"))
+        else:
+            res["reorder"] = ep_incs(body, calls[0].start(), calls[0].end(), tag + " reorder", unparsed)
+    gs = [b for b in fn_bodies(src, "gc_count")]
+    if len(gs) == 1 and re.fullmatch(r"self\.gc_count\.load\(" + AT_ORD + r"\)", compact(gs[0])):
+        res["getter"] = "load"
+    else:
+        unparsed.append(desc(tag, "fn gc_count is not `self.gc_count.load(_)`"))
+    # any other function touching the counter?
+    for m in re.finditer(r"\bgc_count\s*\.", src):
+        name, _ = fn_at(fn_spans_cached(src), m.start())
+        if name not in ("gc", "reorder", "gc_count"):
+            unparsed.append(desc(tag, "gc_count used in fn " + name))
+    mi = re.findall(r"\bgc_count\s*:\s*AtomicU64::new\(\s*(\d+)\s*\)", src)
+    res["init"] = mi[0] if len(mi) == 1 else "?"
+    if len(mi) != 1:
+        unparsed.append(desc(tag, f"{len(mi)} initialisations of gc_count"))
+    return (f"⟨{lean_list(res['gc'])}, {lean_bool(res['gcShared'])}, {lean_bool(res['tryLockFirst'])}, "
+            f"{lean_list(res['reorder'])}, {lean_bool(res['reorderExclusive'])}, \"{res['getter']}\", {res['init'] if res['init'].isdigit() else 99}⟩")
+
+
+def ep_clear(src, unparsed):
+    """`SatCountCache::clear_if_invalid` -> Lean term of type Ep.ClearFacts; the constructors' initial fields"""
+    src = strip_comments(src)
+    bodies = fn_bodies(src, "clear_if_invalid")
+    if len(bodies) != 1:
+        raise Unparsed("fn clear_if_invalid not found")
+    stmts = bc_stmts(bodies[0])
+    if len(stmts) != 2:
+        raise Unparsed("clear_if_invalid: expected `let epoch = ..; if .. { .. }`, found " + " ; ".join(stmts))
+    m = re.fullmatch(r"let(\w+)=manager\.gc_count\(\)", compact(stmts[0]))
+    if not m:
+        raise Unparsed("epoch source " + stmts[0])
+    ev = m.group(1)
+    mi = re.match(r"if\s+(.*?)\s*(?=\{)", stmts[1], flags=re.S)
+    if not mi:
+        raise Unparsed("condition " + stmts[1])
+    blk, end = block_after(stmts[1], mi.end())
+    if stmts[1][end:].strip():
+        raise Unparsed("clear_if_invalid has an else part")
+    cond = strip_outer(mi.group(1))
+    ors, ands = split_top(cond, "||"), split_top(cond, "&&")
+    if len(ands) > 1 and len(ors) > 1:
+        raise Unparsed("mixed condition " + cond)
+    conn, parts = (".all", ands) if len(ands) > 1 else (".any", ors)
+    tests = set()
+    for p in parts:
+        c = compact(strip_outer(p))
+        mm = re.fullmatch(r"(\w+(?:\.\w+)?)(!=|==)(\w+(?:\.\w+)?)", c)
+        if not mm:
+            raise Unparsed("test " + p)
+        a, rel, b = mm.group(1), mm.group(2), mm.group(3)
+        pair = {a, b}
+        if pair == {ev, "self.epoch"}:
+            f = "epoch"
+        elif pair == {"vars", "self.vars"}:
+            f = "vars"
+        else:
+            raise Unparsed("test " + p)
+        tests.add(f".{'ne' if rel == '!=' else 'eq'} .{f}")
+    acts = set()
+    for st in bc_stmts(blk):
+        c = compact(st)
+        if c == f"self.epoch={ev}":
+            acts.add(".setEpoch")
+        elif c == "self.vars=vars":
+            acts.add(".setVars")
+        elif c == "self.map.clear()":
+            acts.add(".clearMap")
+        else:
+            raise Unparsed("action " + st)
+    order = [".ne .epoch", ".eq .epoch", ".ne .vars", ".eq .vars"]
+    aorder = [".setEpoch", ".setVars", ".clearMap"]
+    facts = f"⟨{conn}, {lean_list(['(' + t + ')' for t in order if t in tests])}, {lean_list([a for a in aorder if a in acts])}⟩"
+    inits = []
+    for fn in ("default", "with_hasher"):
+        for sig, body in fn_defs(src, fn):
+            if "epoch" not in body:
+                continue
+            fields = {}
+            for mf in re.finditer(r"\b(vars|epoch|cache_all)\s*:\s*(\w+)", body):
+                fields[mf.group(1)] = mf.group(2)
+            inits.append(f'("{fn}", "{fields.get("vars", "?")}", "{fields.get("epoch", "?")}", "{fields.get("cache_all", "?")}")')
+    return facts, inits
+
+
+def gen_epoch(read_):
+    unparsed, mgrs, cf, inits = [], [], "⟨.any, [], []⟩", []
+    for tag, path in (("index", "crates/oxidd-manager-index/src/manager.rs"), ("pointer", "crates/oxidd-manager-pointer/src/manager.rs")):
+        try:
+            mgrs.append(f'("{tag}", {ep_manager(read_(path), tag, unparsed)})')
+        except (Exception, SystemExit) as e:
+            unparsed.append(desc(tag + " manager", err_text(e)))
+    try:
+        cf, inits = ep_clear(read_("crates/oxidd-core/src/util/mod.rs"), unparsed)
+    except (Exception, SystemExit) as e:
+        unparsed.append(desc("SatCountCache", err_text(e)))
+    L = ["import OxiddModel.Generated.RulesEpoch", GEN_HEADER, "namespace OxiddModel.Generated\n"]
+    L.append("/-- `Manager::gc` / `Manager::reorder` / `Manager::gc_count` of both managers: the increments of `gc_count` (position relative to the sweep of the unique table resp. to the reordering closure `f(self)`, amount), `gc` takes `&self`, the failed `try_lock` returns before any increment, `reorder` takes `&mut self`, the getter -/")
+    L.append("def epochManagers : List (String × Ep.MgrFacts) :=\n  [" + ",\n   ".join(mgrs) + "]")
+    L.append("/-- `SatCountCache::clear_if_invalid` (`oxidd-core/src/util/mod.rs`): connective, tests (canonical order), actions (canonical order) -/")
+    L.append(f"def clearIfInvalidFacts : Ep.ClearFacts := {cf}")
+    L.append("/-- `SatCountCache::default` / `with_hasher`: (function, vars, epoch, cache_all) -/")
+    L.append("def satCountCacheInits : List (String × String × String × String) := " + lean_list(inits))
+    L.append("/-- constructs of the epoch protocol that the extractor does not recognise -/")
+    L.append(f"def epochUnparsed : List String := {lean_strs(unparsed)}")
+    L.append("\nend OxiddModel.Generated")
+    return {"SrcEpoch.lean": "\n".join(L) + "\n"}
+
+
+# ---- cache keys of quant / apply_quant / restrict / substitute (simple BDD rules) --------------------
+
+KY_OPS = {"And": ".and", "Or": ".or", "Nand": ".nand", "Nor": ".nor", "Xor": ".xor", "Equiv": ".equiv", "Imp": ".imp", "ImpStrict": ".impStrict"}
+
+
+def ky_opd(txt):
+    c = re.sub(r"\.borrowed\(\)$", "", compact(txt)).lstrip("&")
+    return {"f": ".f", "g": ".g", "h": ".h", "vars": ".vars"}.get(c, f"(.other {lstr(c)})")
+
+
+def ky_num(txt):
+    c = compact(txt)
+    return ".cacheId" if c == "cache_id" else f"(.other {lstr(c)})"
+
+
+def ky_slice(txt):
+    """`&[a, b]` -> [a, b]"""
+    c = txt.strip()
+    m = re.fullmatch(r"&\s*\[(.*)\]", c, flags=re.S)
+    if not m:
+        raise Unparsed("slice " + txt)
+    return [a for a in split_top(m.group(1), ",") if a.strip()]
+
+
+def ky_tag(txt, fbody):
+    c = compact(txt)
+    m = re.fullmatch(r"BDDOp::(\w+)", c)
+    if m:
+        return f"(.lit \"{m.group(1)}\")"
+    if re.fullmatch(r"\w+", c):
+        mb = re.search(r"let\s+" + c + r"\s*=\s*", fbody)
+        if mb:
+            rest = fbody[mb.end():]
+            if re.match(r"match\s*\(\s*\)\s*\{", rest) and "Q ==" in rest[:200]:
+                return ".quantVar"
+            if re.match(r"const\s*\{\s*BDDOp::from_apply_quant\(\s*Q\s*,\s*OP\s*\)\s*\}", rest):
+                return ".applyQuantVar"
+            if re.match(r"(?:const\s*\{\s*)?BDDOp::from_u8\(\s*OP\s*\)|match\s*\(\s*\)\s*\{", rest) and "OP ==" in rest[:200] or re.match(r"(?:const\s*\{\s*)?BDDOp::from_u8\(\s*OP\s*\)", rest):
+                return ".opParam"
+    return f"(.other {lstr(c)})"
+
+
+def ky_rows(src, unparsed):
+    """all apply-cache accesses of `simple/apply_rec.rs` -> [Lean KeyRow terms], pops"""
+    spans = fn_spans(src)
+    outer = [s for s in spans if not any(o[0] < s[0] and s[1] <= o[1] for o in spans)]
+    rows, pops = [], []
+    for m in re.finditer(r"\.\s*apply_cache\(\)\s*\.\s*(\w+)\s*\(", src):
+        fn, fbody, fstart = "?", "", 0
+        for st, en, name, body in outer:
+            if st <= m.start() < en:
+                fn, fbody, fstart = name, body, st
+        meth = m.group(1)
+        where = f"{fn}: apply_cache().{meth}"
+        try:
+            args, _end = call_args(src, m.end() - 1)
+            parts = [a for a in split_top(args, ",") if a.strip()]
+            if meth in ("get", "add"):
+                if len(parts) != (3 if meth == "get" else 4) or compact(parts[0]) != "manager":
+                    raise Unparsed("arguments " + args)
+                edges, nums = ky_slice(parts[2]), []
+                value = ""
+                if meth == "add":
+                    mv = re.fullmatch(r"(\w+)\.borrowed\(\)", compact(parts[3]))
+                    if not mv:
+                        raise Unparsed("value " + parts[3])
+                    value = mv.group(1)
+            elif meth in ("get_extended", "add_extended"):
+                if len(parts) != (3 if meth == "get_extended" else 4) or compact(parts[0]) != "manager":
+                    raise Unparsed("arguments " + args)
+                kp = [a for a in split_top(strip_outer(parts[2]), ",") if a.strip()]
+                if len(kp) != 2:
+                    raise Unparsed("extended key " + parts[2])
+                edges, nums = ky_slice(kp[0]), ky_slice(kp[1])
+                value = ""
+                if meth == "add_extended":
+                    vp = [a for a in split_top(strip_outer(parts[3]), ",") if a.strip()]
+                    ve = ky_slice(vp[0]) if len(vp) == 2 else []
+                    mv = re.fullmatch(r"(\w+)\.borrowed\(\)", compact(ve[0])) if len(ve) == 1 else None
+                    if not mv or ky_slice(vp[1]):
+                        raise Unparsed("extended value " + parts[3])
+                    value = mv.group(1)
+            else:
+                raise Unparsed("method " + meth)
+            # is the stored value what the function returns (`…add(.., v.borrowed()); Ok(v)`)?
+            if value and re.match(r"\s*;\s*Ok\(\s*" + value + r"\s*\)\s*\}", src[_end:_end + 60]):
+                value = "result"
+            rows.append(f'⟨"{fn}", {lean_bool(meth.startswith("add"))}, {ky_tag(parts[1], fbody)}, {lean_list([ky_opd(e) for e in edges])}, {lean_list([ky_num(n) for n in nums])}, "{value}"⟩')
+        except (Unparsed, SystemExit) as e:
+            unparsed.append(desc(where, err_text(e)))
+    # the variable set is shortened before the lookup
+    for st, en, name, body in outer:
+        if name not in ("quant", "apply_quant"):
+            continue
+        mp = re.search(r"let\s+vars\s*=\s*if\s+(.*?)\s*\{\s*(?:crate::)?set_pop\(\s*manager\s*,\s*vars\s*,\s*(\w+)\s*\)\s*\}\s*else\s*\{\s*vars\s*\}\s*;", body, flags=re.S)
+        if not mp:
+            unparsed.append(desc(name, "`let vars = if .. { set_pop(manager, vars, <level>) } else { vars };` not found"))
+            continue
+        cond, lv = compact(mp.group(1)), mp.group(2)
+        except_unique = cond in ("operator!=BDDOp::Unique", "Q!=BDDOp::Xorasu8", "BDDOp::Unique!=operator")
+        if not except_unique:
+            unparsed.append(desc(name, "condition of the set_pop: " + mp.group(1)))
+        cb = compact(body[:mp.start()])
+        if re.search(r"let" + lv + r"=fnode\.level\(\);", cb):
+            level = ".flevel"
+        elif re.search(r"let" + lv + r"=(?:std::cmp::|cmp::)?min\((?:fnode\.level\(\)|flevel),(?:gnode\.level\(\)|glevel)\);", cb):
+            level = ".minLevel"
+        else:
+            level = f"(.other {lstr(lv)})"
+        mg = re.search(r"\.\s*apply_cache\(\)\s*\.\s*get", body)
+        pops.append(f'⟨"{name}", {level}, {lean_bool(except_unique)}, {lean_bool(bool(mg) and mp.end() < mg.start())}⟩')
+    return rows, pops
+
+
+def ky_quant_table(src, unparsed):
+    """`let operator = match () { _ if Q == BDDOp::And as u8 => BDDOp::Forall, .. }` in `quant`"""
+    bodies = fn_bodies(src, "quant")
+    rows = []
+    if len(bodies) != 1:
+        unparsed.append(desc("quant", "fn quant not found"))
+        return rows
+    m = re.search(r"let\s+operator\s*=\s*match\s*\(\s*\)\s*(?=\{)", bodies[0])
+    if not m:
+        unparsed.append(desc("quant", "operator table not found"))
+        return rows
+    arms, _ = block_after(bodies[0], m.end())
+    for pat, res in split_arms(arms):
+        mp = re.fullmatch(r"_ifQ==BDDOp::(\w+)asu8", compact(pat))
+        mr = re.fullmatch(r"BDDOp::(\w+)", compact(res))
+        if mp and mr and mp.group(1) in KY_OPS:
+            rows.append(f'({KY_OPS[mp.group(1)]}, "{mr.group(1)}")')
+        elif compact(pat) == "_" and re.match(r"unreachable!|panic!", res.strip()):
+            continue
+        else:
+            unparsed.append(desc("quant operator table", pat + " => " + res))
+    return rows
+
+
+def ky_from_apply_quant(src, unparsed):
+    bodies = fn_bodies(src, "from_apply_quant")
+    rows = []
+    if len(bodies) != 1:
+        unparsed.append(desc("mod.rs", "fn from_apply_quant not found"))
+        return rows
+    body = bodies[0]
+    for m in re.finditer(r"if\s+q\s*==\s*BDDOp::(\w+)\s+as\s+u8\s*(?=\{)", body):
+        blk, _ = block_after(body, m.end())
+        mm = re.match(r"\s*match\s*\(\s*\)\s*(?=\{)", blk)
+        if m.group(1) not in KY_OPS or not mm:
+            unparsed.append(desc("from_apply_quant", "block for q == " + m.group(1)))
+            continue
+        arms, end = block_after(blk, mm.end())
+        if blk[end:].strip():
+            unparsed.append(desc("from_apply_quant", "code after the match for q == " + m.group(1)))
+        for pat, res in split_arms(arms):
+            mp = re.fullmatch(r"_ifop==BDDOp::(\w+)asu8", compact(pat))
+            mr = re.fullmatch(r"BDDOp::(\w+)", compact(res))
+            if mp and mr and mp.group(1) in KY_OPS:
+                rows.append(f'({KY_OPS[m.group(1)]}, {KY_OPS[mp.group(1)]}, "{mr.group(1)}")')
+            elif compact(pat) == "_" and re.match(r"unreachable!|panic!", res.strip()):
+                continue
+            else:
+                unparsed.append(desc("from_apply_quant", pat + " => " + res))
+    return rows
+
+
+def gen_keys(read_):
+    unparsed, rows, pops, qt, faq = [], [], [], [], []
+    try:
+        src = strip_debug_asserts(strip_comments(read_("crates/oxidd-rules-bdd/src/simple/apply_rec.rs")))
+        rows, pops = ky_rows(src, unparsed)
+        qt = ky_quant_table(src, unparsed)
+    except (Exception, SystemExit) as e:
+        unparsed.append(desc("simple/apply_rec.rs", err_text(e)))
+    try:
+        faq = ky_from_apply_quant(strip_comments(read_("crates/oxidd-rules-bdd/src/simple/mod.rs")), unparsed)
+    except (Exception, SystemExit) as e:
+        unparsed.append(desc("simple/mod.rs", err_text(e)))
+    L = ["import OxiddModel.Generated.RulesKeys", GEN_HEADER, "namespace OxiddModel.Generated\n"]
+    L.append("/-- every access to the apply cache in `oxidd-rules-bdd/src/simple/apply_rec.rs`: function, lookup (`false`) or insertion (`true`), operator, edge operands, numeric operands, value inserted -/")
+    L.append("def keyRows : List Ky.KeyRow :=\n  [" + ",\n   ".join(rows) + "]")
+    L.append("/-- `quant` / `apply_quant`: the variable set is shortened by `set_pop(manager, vars, <level>)` (except for `Unique`) before the lookup -/")
+    L.append("def keyPops : List Ky.PopRow := " + lean_list(pops))
+    L.append("/-- `quant`: combining operator `Q` ↦ the `BDDOp` it is memoised under -/")
+    L.append("def quantOperatorRows : List (Ky.KOp × String) := " + lean_list(qt))
+    L.append("/-- `BDDOp::from_apply_quant(q, op)` (`simple/mod.rs`) -/")
+    L.append("def fromApplyQuantRows : List (Ky.KOp × Ky.KOp × String) :=\n  [" + ",\n   ".join(faq) + "]")
+    L.append("/-- cache accesses that the extractor does not recognise -/")
+    L.append(f"def keysUnparsed : List String := {lean_strs(unparsed)}")
+    L.append("\nend OxiddModel.Generated")
+    return {"SrcKeys.lean": "\n".join(L) + "\n"}
+
+
+# ---- F64 terminal normalisation (`terminal/f64.rs`) -------------------------------------------------
+
+FX_CONSTS = {"0.": "zero", "0.0": "zero", "0f64": "zero", "1.": "one", "1.0": "one", "f64::NAN": "nan", "f64::INFINITY": "inf",
+             "f64::NEG_INFINITY": "negInf", "-0.0": "negZero", "-0.": "negZero", "-0.0f64": "negZero"}
+FX_BIN = {"+": ".add", "-": ".sub", "*": ".mul", "/": ".div"}
+
+
+def fx_expr(txt):
+    """argument of a construction -> Lean Fx.Arg"""
+    c = compact(txt)
+    if c in FX_CONSTS:
+        return f".const .{FX_CONSTS[c]}"
+    m = re.fullmatch(r"\(?(self|lhs)\.0([-+*/])(rhs|other)\.0\)?", c)
+    if m:
+        return f".binop {FX_BIN[m.group(2)]}"
+    return f".expr {lstr(c)}"
+
+
+def fx_normaliser(arg):
+    """the body of `From<f64>::from`: `if value.is_nan() { f64::NAN } else if value.to_bits() == (-0.0f64).to_bits() { 0.0 } else { value }`
+    -> (handles NaN, handles -0.0, otherwise identity)"""
+    t = arg.strip()
+    nan = negz = ident = False
+    var = None
+    while True:
+        m = re.match(r"if\s+(.*?)\s*(?=\{)", t, flags=re.S)
+        if not m:
+            break
+        blk, end = block_after(t, m.end())
+        cond, val = compact(m.group(1)), compact(blk)
+        mn = re.fullmatch(r"(\w+)\.is_nan\(\)", cond)
+        mz = re.fullmatch(r"(\w+)\.to_bits\(\)==\(?-0\.0?(?:f64)?\)?\.to_bits\(\)", cond) or re.fullmatch(r"\(?-0\.0?(?:f64)?\)?\.to_bits\(\)==(\w+)\.to_bits\(\)", cond)
+        if mn and val == "f64::NAN":
+            nan, var = True, mn.group(1)
+        elif mz and val in ("0.0", "0.", "0f64"):
+            negz, var = True, mz.group(1)
+        else:
+            raise Unparsed("branch of the normalisation: if " + m.group(1) + " { " + blk.strip() + " }")
+        rest = t[end:].strip()
+        if not rest.startswith("else"):
+            raise Unparsed("normalisation without else")
+        t = rest[4:].strip()
+    last = compact(strip_outer(t, "{", "}"))
+    ident = var is not None and last == var
+    if not ident:
+        raise Unparsed("last branch of the normalisation: " + t)
+    return nan, negz, ident
+
+
+def gen_f64(read_):
+    unparsed, rows = [], []
+    norm = (False, False, False)
+    try:
+        src = strip_comments(read_("crates/oxidd-rules-mtbdd/src/terminal/f64.rs"))
+        # drop the unit tests
+        mt = re.search(r"#\[cfg\(test\)\]\s*mod\s+\w+\s*(?=\{)", src)
+        if mt:
+            _, tend = block_after(src, mt.end())
+            src = src[:mt.start()] + src[tend:]
+        src = re.sub(r"#!?\[[^\]]*\]", "", src)
+        ispans, fspans = impl_spans(src), fn_spans(src)
+
+        def owner(pos):
+            best = None
+            for st, en, ty, tr in ispans:
+                if st <= pos < en and (best is None or st > best[0]):
+                    best = (st, en, ty, tr)
+            return (best[3] or best[2]) if best else ""
+
+        for m in re.finditer(r"\b(Self|F64)\s*(::\s*from\s*)?\(", src):
+            pos = m.start()
+            fn, _ = fn_at(fspans, pos)
+            if fn == "?":
+                continue  # not inside a function body (e.g. the struct declaration)
+            try:
+                arg, _ = call_args(src, m.end() - 1)
+            except Unparsed as e:
+                unparsed.append(desc(fn, str(e)))
+                continue
+            ow = owner(pos)
+            if m.group(2):
+                rows.append(f'⟨"{ow}", "{fn}", .normalised, {fx_expr(arg)}⟩')
+            elif ow == "From" and fn == "from" and re.match(r"\s*if\b", arg):
+                try:
+                    norm = fx_normaliser(arg)
+                    rows.append(f'⟨"{ow}", "{fn}", .normaliser, .expr "value"⟩')
+                except (Unparsed, SystemExit) as e:
+                    unparsed.append(desc("From<f64>::from", err_text(e)))
+            else:
+                rows.append(f'⟨"{ow}", "{fn}", .raw, {fx_expr(arg)}⟩')
+        # `.into()` conversions into F64 are normalising too, but none is expected; report them
+        for m in re.finditer(r"\.into\(\)", src):
+            fn, _ = fn_at(fspans, m.start())
+            unparsed.append(desc(fn, "`.into()` (cannot tell the target type)"))
+    except (Exception, SystemExit) as e:
+        unparsed.append(desc("f64.rs", err_text(e)))
+    L = ["import OxiddModel.Generated.RulesF64", GEN_HEADER, "namespace OxiddModel.Generated\n"]
+    L.append("/-- every construction of an `F64` in `oxidd-rules-mtbdd/src/terminal/f64.rs` (tests excluded): trait (or type) of the `impl`, function, how it is built (`Self::from(..)` = normalised, `Self(..)` = raw, the normaliser itself), from what -/")
+    L.append("def f64Rows : List Fx.Row :=\n  [" + ",\n   ".join(rows) + "]")
+    L.append("/-- `impl From<f64> for F64`: NaN ↦ `f64::NAN`, `-0.0` ↦ `0.0`, anything else unchanged -/")
+    L.append(f"def f64Normaliser : Bool × Bool × Bool := ({lean_bool(norm[0])}, {lean_bool(norm[1])}, {lean_bool(norm[2])})")
+    L.append("/-- constructs of `f64.rs` that the extractor does not recognise -/")
+    L.append(f"def f64Unparsed : List String := {lean_strs(unparsed)}")
+    L.append("\nend OxiddModel.Generated")
+    return {"SrcF64.lean": "\n".join(L) + "\n"}
+
+
 def lean_list(xs):
     return "[" + ", ".join(xs) + "]"
 
@@ -1959,6 +3110,8 @@ def main():
     files = {}
     for gen in PART2:
         files.update(gen(read))
+    for gen in PART3:
+        files.update(gen(read))
     for name in sorted(files):
         path = os.path.join(GEN_DIR, name)
         old = open(path, encoding="utf-8").read() if os.path.exists(path) else None
@@ -1970,6 +3123,7 @@ def main():
 
 
 PART2 = [gen_mtbdd, gen_i64, gen_bcdd_kernels, gen_zbdd_apply, gen_reduce]
+PART3 = [gen_atomicity, gen_ite, gen_epoch, gen_keys, gen_f64]
 
 
 if __name__ == "__main__":
